@@ -68,9 +68,13 @@ PROPS = {
                  "summation order in portfolio/infer. Decided on every run: each of balance, print, check --write, transcode, portfolio weights, infer and import revolut2 is run 8 (thorough: 30) "
                  "times on tie-rich inputs with different schedule-perturbation seeds and GOMAXPROCS 1/2/16 (Go randomises map iteration per run); stdout bytes and exit status must be identical.",
         "note": "Trusted: Lean kernel; axioms propext, Classical.choice, Quot.sound. Go map order and goroutine schedules can be sampled, not enumerated. A genuine defect found by this check "
-                "(portfolio weights rows with equal weight in map order) was repaired in /repo (fix: commit 795b0e8).",
+                "(portfolio weights rows with equal weight in map order) was repaired in /repo (fix: commit 795b0e8). Findings on the unchanged code (known_findings.jsonl), recognised by their exact shape only: "
+                "returns-prints-periods-before-a-late-failure (portfolio returns prints a schedule-dependent prefix of its report when the journal is rejected on a late day; exit status stable) and "
+                "print-same-day-directives-of-different-files-in-arrival-order (print / transcode: same-day price / open / balance / close directives of different included files come out in loader arrival order).",
         "rule": "inputs built for ties: sibling accounts with equal values, diamond-shaped price graphs with inconsistent cross rates, equally likely bayes candidates split over included training "
-                "files, several currencies per day in revolut2 statements, same-day directives; plus lifecycle journals with chained prices. class = (command, exit, output size).",
+                "files, several currencies per day in revolut2 statements, same-day directives; plus lifecycle journals with chained prices. class = (command, exit, output size). "
+                "Stream `failing`: include trees (2-30 files of very different or equal sizes, nested) with 0-2 faults at the first / a middle / the last position of any file (half-typed directive, include of a missing file / a directory / an ancestor, "
+                "directive rejected by the journal) under infer -t, balance, print, check [--write], transcode, register, portfolio weights / returns: stdout bytes and exit status of rejected inputs must not depend on the schedule either; class = (command, faults, exit, output size).",
         "assumptions": [],
     },
     "C05": {
@@ -191,7 +195,10 @@ PROPS = {
                 "error message texts are not modelled, only verdict and named directive.  @accrue-annotated transactions are generated too and expanded on the model side by Model/Accrual (C10).",
         "rule": "journals generated by an account-lifecycle automaton (2-6 accounts of all five types incl. nested ones, 1-3+ commodities incl. Unicode names, 1-5 days, same-day "
                 "open/use/assert/close, multi-booking transactions, zero and negative amounts, multi-balance assertions) with at most one mutation out of: drop-open, duplicate-open, "
-                "wrong-assertion, random-close, late-booking, zero-assertion, non-AL-assertion, reopen-assert, zero-booking-unopened. class = (verdict, mutation, size bucket).",
+                "wrong-assertion, random-close, late-booking, zero-assertion, non-AL-assertion, reopen-assert, zero-booking-unopened. class = (verdict, mutation, size bucket). "
+                "Stream disorder: sparse account timelines (one open/booking/assertion/close/price per step, mostly on a date of its own), re-open journals and automaton journals whose FILE order is "
+                "rearranged (displaced or nudged directives, swapped/displaced/permuted/reversed days, shuffled tail, full shuffle, grouped by kind, concatenated chronological files); the specification "
+                "sorts the generated directive list itself and is compared with check.Check and `knut check`.",
         "assumptions": ["the day grouping of journal.Builder (model Builder.ofList) is exercised through the real loader on every case"],
     },
     "C07": {
